@@ -726,6 +726,11 @@ class CallMixin(StmtMixin):
         if name == "itertools.chain":
             items: list = []
             for a in args:
+                if isinstance(a, Ref) and st.obj(a).kind in ("gen", "absiter", "chained"):
+                    # a lazy part: the chain is handed on as it is (parts in order)
+                    st2, r = self.alloc(st, "chained", None, parts=tuple(args))
+                    yield st2, r
+                    return
                 got = list(self.iterate_all(st, a, node))
                 if len(got) != 1 or isinstance(got[0][1], Raised):
                     raise Unsupported("itertools.chain over something that cannot be iterated in place", node)
